@@ -16,7 +16,7 @@ CHECKS = {
     "C14": dict(
         engine="pbt",
         category="exploration",
-        text="Generated-input search: millions of proptest-generated multisets and setsum triples per run are checked against the algebraic laws, a u128 arithmetic reference and an independent Python hashlib reference. This samples an infinite input space densely around the column edge values (0, 1, p-1, p, p+1, 2^32-1); it cannot prove the laws, but the laws are per-column modular identities, so edge-biased sampling is the right level.",
+        text="Generated-input search: millions of proptest-generated multisets and setsum triples per run are checked against the algebraic laws, a u128 arithmetic reference and an independent Python hashlib reference. This samples an infinite input space densely around the column edge values (0, 1, p-1, p, p+1, 2^32-1); it cannot prove the laws, but the laws are per-column modular identities, so edge-biased sampling is the right level. Items mined to have a SHA3 word at or above a column prime are part of the generator; for every operand, canonical or not, results of + and - must be canonical (documented add_state formula) and a - a must be the empty setsum.",
         design_ref="DESIGN.md §5 C14",
         note="Trusts SHA3-256 (sha3 crate, Python hashlib). Non-canonical digests are compared as residues.",
         technique="property-based testing (proptest) with reference-model and differential (Python) oracles",
@@ -26,7 +26,7 @@ CHECKS = {
 CHECKS["C10"] = dict(
     engine="pbt",
     category="exploration",
-    text="Generated-input search with a vector reference cursor: about a million generated (table, builder options, cursor program) cases per quick run for blocks and real sst files, compared after every cursor call, plus walks, timestamped lookups, metadata and rejected-input injection. The input space (entry sequences x options x programs) is unbounded, so sampling with edge-biased generators is the appropriate level.",
+    text="Generated-input search with a vector reference cursor: about a million generated (table, builder options, cursor program) cases per quick run for blocks and real sst files, compared after every cursor call, plus walks, timestamped lookups, metadata and rejected-input injection. The input space (entry sequences x options x programs) is unbounded, so sampling with edge-biased generators is the appropriate level. Added parts: SstMultiBuilder round trip with size roll-over and split hints (concatenation of the output files equals the input, per-file checks, order across files, invalid offers refused at every position incl. first entry of a new file); refused offers leave no trace (byte-wise comparison with a twin built from the accepted entries); keys / values at exactly the maximal sizes through put and del.",
     design_ref="DESIGN.md §5 C10",
     note="Reference semantics are the sentinel semantics documented on sst::Cursor; programs start with an absolute seek; (empty key, u64::MAX) is never the first entry.",
     technique="property-based testing (proptest), model-based comparison with a reference cursor after every call",
@@ -34,7 +34,7 @@ CHECKS["C10"] = dict(
 CHECKS["C11"] = dict(
     engine="pbt",
     category="exploration",
-    text="Generated-input search: each combinator (merging, concatenating, pruning, bounds, lazy, and the Bounds(Pruning(Merging(Concat(Lazy),Block))) stack the store uses) is driven by generated cursor programs with forced direction reversals over generated child tables and compared after every call with a vector reference built directly from the definition.",
+    text="Generated-input search: each combinator (merging, concatenating, pruning, bounds, lazy, and the Bounds(Pruning(Merging(Concat(Lazy),Block))) stack the store uses) is driven by generated cursor programs with forced direction reversals over generated child tables and compared after every call with a vector reference built directly from the definition. Programs may start on the freshly constructed cursor; Block::range_scan / Sst::range_scan compared with the reference restricted to the range.",
     design_ref="DESIGN.md §5 C11",
     note="Children respect the combinators' preconditions (no (key,timestamp) shared between merging children; concatenated children ordered, overlapping at most in one boundary key).",
     technique="property-based testing (proptest), model-based comparison with a reference cursor after every call",
@@ -119,7 +119,7 @@ CHECKS["C13"] = dict(
 CHECKS["C16"] = dict(
     engine="pbt",
     category="exploration",
-    text="Generated pairs and triples of tuples correlated by construction (equal prefix, then differ; integers at byte-length and sign boundaries; strings/bytes with NUL, 0xff, empty, prefix pairs) under generated schemas, for both formats: encoded order equals tuple order with per-element direction, extensions stay contiguous, decode(encode) is the identity (parser, iterator, schema, derive), and arbitrary or mutated bytes never panic the decoders. An exhaustive family of 219 024 short descending-string pairs pins down known finding R-N exactly.",
+    text="Generated pairs and triples of tuples correlated by construction (equal prefix, then differ; integers at byte-length and sign boundaries; strings/bytes with NUL, 0xff, empty, prefix pairs) under generated schemas, for both formats: encoded order equals tuple order with per-element direction, extensions stay contiguous, decode(encode) is the identity (parser, iterator, schema, derive), and arbitrary or mutated bytes never panic the decoders. An exhaustive family of 219 024 short descending-string pairs pins down known finding R-N exactly. Extension APIs (append / extend / builders) must be byte-identical to from-scratch encodings; derived TryFrom<TupleKey> on damaged and arbitrary bytes; u8 / u16 / i8 / i16 elements of tuple_key2 with cross-width parsers.",
     design_ref="DESIGN.md §5 C16",
     note="tuple_key has no bytes type and fixed-width integers; tuple_key2 has no directions; tuples are compared under identical schemas only. R-N (descending strings in tuple_key) is excluded by an independent predicate and counted.",
     technique="property-based testing (proptest) with order / round-trip oracles and a small exhaustive family",
@@ -128,7 +128,7 @@ CHECKS["C16"] = dict(
 CHECKS["C15"] = dict(
     engine="pbt",
     category="exploration",
-    text="Each value is generated once as a dynamic tree and lowered both to a family of 15 derived message types (every scalar field type, bytes and fixed-size bytes, strings, Option, Vec, nesting to depth 4, a recursive tree, enums with unit / unnamed / named variants, Result) and to an independent wire encoder; oracles: pack_sz equals the bytes written by every pack variant, bytes equal the reference encoding, unpack returns an equal value (floats bitwise); unknown fields of every wire type spliced at field boundaries of any depth do not disturb known fields; arbitrary and structurally mutated bytes never panic and accepted values re-encode stably; every 1..10-byte varint (canonical or not) decodes identically on the fast and the slow path; Tag / FieldNumber / WireType / FieldIterator agree with an independent wire walker. A libFuzzer target (fuzz/c15_decode_any) extends the arbitrary-bytes part in the thorough workflow.",
+    text="Each value is generated once as a dynamic tree and lowered both to a family of 15 derived message types (every scalar field type, bytes and fixed-size bytes, strings, Option, Vec, nesting to depth 4, a recursive tree, enums with unit / unnamed / named variants, Result) and to an independent wire encoder; oracles: pack_sz equals the bytes written by every pack variant, bytes equal the reference encoding, unpack returns an equal value (floats bitwise); unknown fields of every wire type spliced at field boundaries of any depth do not disturb known fields; arbitrary and structurally mutated bytes never panic and accepted values re-encode stably; every 1..10-byte varint (canonical or not) decodes identically on the fast and the slow path; Tag / FieldNumber / WireType / FieldIterator agree with an independent wire walker. A libFuzzer target (fuzz/c15_decode_any) extends the arbitrary-bytes part in the thorough workflow. Concatenated encodings enc(a) ++ enc(b) must decode to the protocol-buffers merge; string x PathBuf, tuple and unit structs, [u8; 64] in named variants; splices before and after oneof variant fields (before: only no-panic and value-undisturbed-if-accepted).",
     design_ref="DESIGN.md §5 C15",
     note="The message family is fixed at compile time (derive macro). Merge semantics of duplicated known fields and payloads above ~16 KiB are not exercised.",
     technique="property-based testing (proptest) with an independent reference encoder, metamorphic unknown-field splicing and differential fast/slow varint decoding",
@@ -154,7 +154,7 @@ CHECKS["C06"] = dict(
 CHECKS["C19"] = dict(
     engine="pbt",
     category="exploration",
-    text="Generated texts (empty, single symbol, all-equal, periodic, de-Bruijn-like, Fibonacci-like, random over alphabets of 1..4000 symbols incl. 0 and u32::MAX and the 254-257 symbol width switch) with generated record boundaries and needle families (substrings incl. across records, mutated, absent, empty, whole text): CompressedDocument and ReferenceDocument are each compared with a naive scan written in the harness for len, records, count, search, lookup, offset_of, retrieve, and again after pack/unpack; every exported BitVector implementation (rrr, cf_rrr, sparse incl. from_indices, reference) is compared with Vec<bool> for access / rank / select at all indices (small vectors) or at structure-size neighbourhoods (up to 50 000 bits), including out-of-range ranks; wavelet trees against a plain symbol vector.",
+    text="Generated texts (empty, single symbol, all-equal, periodic, de-Bruijn-like, Fibonacci-like, random over alphabets of 1..4000 symbols incl. 0 and u32::MAX and the 254-257 symbol width switch) with generated record boundaries and needle families (substrings incl. across records, mutated, absent, empty, whole text): CompressedDocument and ReferenceDocument are each compared with a naive scan written in the harness for len, records, count, search, lookup, offset_of, retrieve, and again after pack/unpack; every exported BitVector implementation (rrr, cf_rrr, sparse incl. from_indices, reference) is compared with Vec<bool> for access / rank / select at all indices (small vectors) or at structure-size neighbourhoods (up to 50 000 bits), including out-of-range ranks; wavelet trees against a plain symbol vector. Ten further SA + ISA + PSI combinations run the same document queries; alphabets on both sides of 65 536 symbols; every building block (sais, psi constructors, reference and sampled SA / ISA with sampling exponents 0..64) against suffixes sorted in the harness.",
     design_ref="DESIGN.md §5 C19",
     note="Where the documentation is silent and both implementations agree, their common behaviour is adopted (recorded as assumptions in the evidence). More than 65 535 distinct symbols and texts of 2^32 symbols are out of reach.",
     technique="property-based testing (proptest) with a naive-scan reference model and a two-implementation differential",
@@ -172,7 +172,7 @@ CHECKS["C17"] = dict(
 CHECKS["C12"] = dict(
     engine="pbt",
     category="exploration",
-    text="Generated-input search in four parts: (1) sequential round-trip - generated batch sequences whose fillers are computed from the builder's offset so that exactly 0..45 (up to 70 000) bytes remain before the next 1 MiB boundary, then probes that fit the remaining room +-delta, maximal batches, empty and over-full batches; LogIterator output, seal() setsum and the builder offsets are compared with the appended list and with the harness's own frame parser. (2) truncation - for each built image every cut length inside every split batch, padding, boundary neighbourhood and the last frames (up to 900 / 2500 cuts per case): the reader must yield exactly the batches that end before the cut and then end or fail, never panic. (3) concurrent append - 2-8 real threads through one ConcurrentLogBuilder<File> with write/fdatasync/fsync interposed in the harness binary, generated delays inside the calls and forced pile-ups; each batch once, whole, per-thread and real-time order kept, and each append returns only after an fdatasync covering its bytes completed. (4) hand-made frames with wrong CRCs / discriminants / lengths: no panic, only entries present in the input. Sizes x boundaries x schedules is unbounded, so sampling with boundary-computed generators is the appropriate level.",
+    text="Generated-input search in four parts: (1) sequential round-trip - generated batch sequences whose fillers are computed from the builder's offset so that exactly 0..45 (up to 70 000) bytes remain before the next 1 MiB boundary, then probes that fit the remaining room +-delta, maximal batches, empty and over-full batches; LogIterator output, seal() setsum and the builder offsets are compared with the appended list and with the harness's own frame parser. (2) truncation - for each built image every cut length inside every split batch, padding, boundary neighbourhood and the last frames (up to 900 / 2500 cuts per case): the reader must yield exactly the batches that end before the cut and then end or fail, never panic. (3) concurrent append - 2-8 real threads through one ConcurrentLogBuilder<File> with write/fdatasync/fsync interposed in the harness binary, generated delays inside the calls and forced pile-ups; each batch once, whole, per-thread and real-time order kept, and each append returns only after an fdatasync covering its bytes completed. (4) hand-made frames with wrong CRCs / discriminants / lengths: no panic, only entries present in the input. Sizes x boundaries x schedules is unbounded, so sampling with boundary-computed generators is the appropriate level. Fifth part: errno injection (EIO / ENOSPC / short write at the k-th write or fdatasync) into LogBuilder and ConcurrentLogBuilder - nothing acknowledged may be unreadable or not covered by a successful sync; all convenience calls, WriteBatch insert / merge, LogOptions values and merged writes of exactly 1 MiB are exercised.",
     design_ref="DESIGN.md §5 C12",
     note="Durability is judged on intercepted libc calls (tmpfs persists nothing). Thread interleavings are those the OS produces under generated delays and forced pile-ups, not an exhaustive schedule enumeration. Logs stay far below the 1 GiB roll-over size.",
     technique="property-based testing (proptest): round-trip against the appended list and an independent frame parser, exhaustive-per-case truncation sweep, generated multi-threaded runs with libc interposition",
@@ -181,7 +181,7 @@ CHECKS["C12"] = dict(
 CHECKS["C09"] = dict(
     engine="pbt",
     category="exploration",
-    text="Generated-input search over (pristine file, damage plan): ssts (vsst table generators + real builder), logs (LogBuilder + WriteBatch, some with split frames and padding) and manifests (real Manifest::apply) are written, every byte is tagged with its region by an independent format walker, and 1-3 damages {bit flip, byte overwrite, truncation, appended random / zero / same-file suffix, clustered next-byte damage} are drawn per region class so that final block, trailer, headers, CRC digits and separators are hit as often as data. Oracle: every observation (open, forward and backward walk, loads at several timestamps, metadata, LogIterator drain, log_to_setsum, ManifestIterator, Manifest::open) on the damaged file is an error or equals the pristine observation (a genuine prefix followed by an error is allowed; a clean short read only after a truncation); no panic (catch_unwind, aborts attributed through a signal handler); the largest single allocation (counting global allocator) stays within the documented bound. In addition, for a few generated files per run EVERY single-bit flip, EVERY truncation length and 0x00/0xff at EVERY offset are enumerated, and the committed fuzz seed corpus is replayed through the reference-free oracle of the libFuzzer targets.",
+    text="Generated-input search over (pristine file, damage plan): ssts (vsst table generators + real builder), logs (LogBuilder + WriteBatch, some with split frames and padding) and manifests (real Manifest::apply) are written, every byte is tagged with its region by an independent format walker, and 1-3 damages {bit flip, byte overwrite, truncation, appended random / zero / same-file suffix, clustered next-byte damage} are drawn per region class so that final block, trailer, headers, CRC digits and separators are hit as often as data. Oracle: every observation (open, forward and backward walk, loads at several timestamps, metadata, LogIterator drain, log_to_setsum, ManifestIterator, Manifest::open) on the damaged file is an error or equals the pristine observation (a genuine prefix followed by an error is allowed; a clean short read only after a truncation); no panic (catch_unwind, aborts attributed through a signal handler); the largest single allocation (counting global allocator) stays within the documented bound. In addition, for a few generated files per run EVERY single-bit flip, EVERY truncation length and 0x00/0xff at EVERY offset are enumerated, and the committed fuzz seed corpus is replayed through the reference-free oracle of the libFuzzer targets. Also: log_to_builder, truncate_final_partial_frame and Manifest::verify on damaged files, damaged MANIFEST.N backups (the live state must be unaffected), cursor programs with reversals on damaged ssts, multi-byte damage runs.",
     design_ref="DESIGN.md §5 C09",
     note="Known finding R-O (unchecksummed sst final block: metadata()/fast_setsum() can change silently; entries and loads never do) is excluded by region tag in non-strict mode and counted. Damage that is itself well-formed content (an appended slice made of whole CRC-valid frames / lines of the same file) is outside the damage model. The cargo-fuzz targets under /verif/fuzz are a thorough-workflow extra, not part of the registered commands.",
     technique="property-based testing (proptest-generated files and region-aimed damage plans, per-file exhaustive single-damage enumeration) with a pristine-vs-damaged differential oracle, allocation and panic oracles; libFuzzer corpus replay",
